@@ -306,10 +306,30 @@ def encoder_operand_sites(project):
             for f in c.body:
                 if not (isinstance(f, _a.FunctionDef) and f.name in ("encode", "set_user_patterns", "render", "relocations", "gen_relocations", "__str__")):
                     continue
+                # locals that carry an integer operand (offset = self.imm / offset = -self.imm / a copy of such a local), and the ones a range test looks at
+                ops = {n.targets[0].id for n in c.body if isinstance(n, _a.Assign) and isinstance(n.value, _a.Call) and _n(n.value.func) == "Operand" and len(n.value.args) >= 2
+                       and _n(n.value.args[1]) == "int" and isinstance(n.targets[0], _a.Name)}
+                taint, gated = {}, set()
+                if f.name in ("encode", "set_user_patterns"):
+                    for n in _a.walk(f):
+                        if isinstance(n, _a.Assign) and isinstance(n.targets[0], _a.Name) and not any(isinstance(y, _a.Call) for y in _a.walk(n.value)):
+                            srcs = {y.attr for y in _a.walk(n.value) if isinstance(y, _a.Attribute) and _n(y.value) == "self" and y.attr in ops} | {y.id for y in _a.walk(n.value) if isinstance(y, _a.Name) and y.id in taint}
+                            if srcs:
+                                taint[n.targets[0].id] = srcs
+                    for n in _a.walk(f):
+                        t = n.test if isinstance(n, _a.Assert) or (isinstance(n, _a.If) and any(isinstance(s, _a.Raise) for s in n.body)) else None
+                        if t is None and isinstance(n, _a.Call) and _n(n.func).endswith("wrap_negative"):
+                            t = n
+                        if t is not None:
+                            gated |= {y.id for y in _a.walk(t) if isinstance(y, _a.Name)} | {y.attr for y in _a.walk(t) if isinstance(y, _a.Attribute) and _n(y.value) == "self"}
                 for x in _a.walk(f):
                     if isinstance(x, _a.BinOp) and isinstance(x.op, (_a.BitAnd, _a.Mod)):
                         if isinstance(getattr(x, "_parent", None), _a.Compare):
                             continue   # `assert self.imm % 4 == 0`, `if self.imm & 0x800`: a test, not a truncation
+                        for a, b in ((x.left, x.right), (x.right, x.left)):
+                            names = {y.id for y in _a.walk(a) if isinstance(y, _a.Name) and y.id in taint}
+                            if isinstance(_tc(b), int) and names and not (names & gated) and not any(taint[nm] & gated for nm in names):
+                                out.append((rel, c.name, f.name, "masked", x, _n(x) + " (local carrying operand %s, no range test in this encoder)" % "/".join(sorted(set().union(*[taint[nm] for nm in names])))))
                         for a, b in ((x.left, x.right), (x.right, x.left)):
                             if isinstance(a, _a.Attribute) and _n(a.value) == "self" and isinstance(_tc(b), int) and a.attr not in ("num", "opcode", "opcode2", "func", "cond"):
                                 out.append((rel, c.name, f.name, "masked", x, _n(x)))
